@@ -35,8 +35,8 @@ Proof. vm_compute. reflexivity. Qed.
 
 (* ---- the hand model (Cmds.v): today's variants of the recorded findings fail the statement, the repairs do not ---- *)
 Open Scope Z_scope.
-Definition cfgF : config := {| cfg_expand := false; cfg_expandf := fun c => c |}.
-Definition cfgT : config := {| cfg_expand := true; cfg_expandf := fun c => set_max_mst c (C16.Model.max_mst c + 100) |}.
+Definition cfgF : config := {| cfg_expand := false; cfg_expandf := fun c => c; cfg_sgtier := 1 |}.
+Definition cfgT : config := {| cfg_expand := true; cfg_expandf := fun c => set_max_mst c (C16.Model.max_mst c + 100); cfg_sgtier := 1 |}.
 Definition first_pick : list Z -> option Z := fun l => nth_error l 0.
 Definition last_pick : list Z -> option Z := fun l => nth_error (rev l) 0.
 Definition cstep0 := apply false true.
